@@ -210,7 +210,27 @@ def run(ctx):
         check_case(ctx, r)
     # trace validation of the real token stream against Lex.tla (two contexts per spelling in the quick tier)
     sel = [r for r in res.records if ctx.tier == "thorough" or r["ctxt"] in ("arith", "list2")]
-    validate_tokens(ctx, sel)
+    # arbitrary Unicode string contents (seeded): the harness only doubles the quotes; what the literal means is decided
+    # by the spec's lexer when it reads the same text (Trace_Tokens), and the AST must carry exactly that content
+    import random
+    rng = random.Random(ctx.seed * 31 + 6)
+    pools = [list(range(32, 127)), [39, 39, 39, 37, 95, 92, 34, 10, 9, 0], list(range(0xA0, 0x250)), [0x2019, 0xFF07, 0x1F4A5, 0x10FFFF, 0xE000, 0x200B, 0x85]]
+    extra = []
+    for i in range(3000 if ctx.tier == "quick" else 30000):
+        content = [rng.choice(rng.choice(pools)) for _ in range(rng.randint(0, 12))]
+        lit = "'" + "".join(chr(c) for c in content).replace("'", "''") + "'"
+        text = rng.choice(["x eq %s", "%s ne x", "contains(x, %s)", "x in (%s, 'k')", "concat(%s, %s) eq x"]).replace("%s", lit)
+        extra.append({"text": project.cps(text), "kind": "String", "ctxt": "random", "content": content})
+        try:
+            node = project.parse(text)
+        except Exception as e:  # noqa
+            ctx.violation({"kind": "String", "ctxt": "random", "what": "rejected", "exc": type(e).__name__}, {"text": text, "content": content})
+            continue
+        vals = [project.cps(x.val) for x in __import__("props.c19", fromlist=["literals"]).literals(node) if type(x).__name__ == "String"]
+        ctx.traces += 1
+        if any(v != content for v in vals if v != [107]) or not vals:
+            ctx.violation({"kind": "String", "ctxt": "random", "what": "wrong-content"}, {"text": text, "content": content, "got": vals})
+    validate_tokens(ctx, sel + extra)
     ctx.exhaustive = True
 
 
